@@ -21,7 +21,10 @@ from .refmodel import Ref
 
 CORPUS = os.path.join(os.path.dirname(os.path.dirname(os.path.abspath(__file__))), "corpus", "maa.json")
 
-NAME_FAMILIES = ["v", "letters", "mixed"]
+NAME_FAMILIES = ["v", "letters", "mixed", "nested"]
+# names that are prefixes of each other up to an underscore, and names that look like the
+# library's own internal identifiers (places b0_/b1_, transitions tr_<var>_<up|down>_<id>)
+_NESTED = ["K", "K_p", "K_p_up", "Wnt", "Wnt_inh", "up", "tr", "b0", "b1_K", "K_up_1", "down_1", "Wnt_inh_2"]
 _MIXED = ["x10", "x2", "Xa", "_y", "y_1", "Gene", "gene", "B0", "b1_z", "Q"]
 
 
@@ -32,7 +35,7 @@ def make_names(rng, n, family=None):
         return [f"v{i}" for i in range(n)]
     if family == "letters":
         return [chr(ord("A") + i) for i in range(n)]
-    pool = list(_MIXED)
+    pool = list(_NESTED if family == "nested" else _MIXED)
     rng.shuffle(pool)
     return pool[:n]
 
